@@ -167,6 +167,7 @@ type G struct {
 	forced  bool
 	extSize bool // the string being sized has an extensible size constraint
 	// statistics
+	DirtyBits             int // BIT STRINGs whose unused trailing bits are not zero
 	ExtOutside            int // values generated outside the root of an extensible constraint about what was built
 	OptPresent, OptAbsent int
 }
@@ -304,7 +305,13 @@ func (g *G) Value(t reflect.Type, p P, depth int) reflect.Value {
 		g.extSize = false
 		b := rapid.SliceOfN(rapid.Byte(), int((n+7)/8), int((n+7)/8)).Draw(g.T, "bsb")
 		if n%8 != 0 {
-			b[len(b)-1] &= 0xff << uint(8-n%8)
+			// the value of a BIT STRING is its first BitLength bits; callers (the emulator's own builders among
+			// them) also hand over octets whose unused trailing bits are set — one case in four keeps them
+			if rapid.IntRange(0, 3).Draw(g.T, "bs_dirty") != 0 || b[len(b)-1]&^(0xff<<uint(8-n%8)) == 0 {
+				b[len(b)-1] &= 0xff << uint(8-n%8)
+			} else {
+				g.DirtyBits++
+			}
 		}
 		v := reflect.New(t).Elem()
 		v.Field(0).SetBytes(b)
